@@ -163,12 +163,28 @@ def concrete(nb):
     return nbformat.from_dict(d)
 
 
-def is_valid(nb):
+def schema_errors(nb):
+    """Pure JSON-schema validation against the schema of the minor the notebook declares.
+    (nbformat.validate() first *normalises* - it adds missing cell ids and renames duplicate
+    ones in place - which would hide exactly what C04 is about, and mutates its argument.)"""
+    from nbformat import validator
     try:
-        nbformat.validate(nb)
-        return True
-    except Exception:
-        return False
+        plain = _plain(nb)
+        return [str(getattr(e, "message", e))[:300] for e in validator.iter_validate(plain)][:5]
+    except Exception as e:  # noqa
+        return ["validator raised %s: %s" % (type(e).__name__, str(e)[:200])]
+
+
+def _plain(x):
+    if isinstance(x, dict):
+        return {k: _plain(v) for k, v in x.items()}
+    if isinstance(x, (list, tuple)):
+        return [_plain(v) for v in x]
+    return x
+
+
+def is_valid(nb):
+    return not schema_errors(nb)
 
 
 # ---------------------------------------------------------------------------
